@@ -3,6 +3,8 @@ CONSTANTS
   Msgs = {"m1","m2"}
   Closers = {c1, c2}
   AllowStop = FALSE
+  Watcher = nowatcher
+  AllowCtxCancel = FALSE
   AllowTimeout = FALSE
   LegacyConcurrentWaits = FALSE
   LegacyStartedFirst = FALSE
